@@ -43,3 +43,52 @@ Theorem C06_forward_progress : forall s a st cur v nn st',
   dec_value s a st cur = Ok (v, nn, st') -> (length (rest st') + 5 <= length (rest st))%nat.
 Proof. exact (proj1 dec_value_progress). Qed.
 Print Assumptions C06_forward_progress.
+
+(* ---------------------------------------------------------------------------------------------
+   The same on the reader objects (Readers.v): however the transport fragments the bytes. *)
+From Coq Require Import Lia.
+Require Import Readers ReadersProofs.
+
+(* several messages back to back, delivered by ANY script of read sizes (single bytes, any split,
+   zero-length reads, last data together with io.EOF), through a buffered source or an io.ByteScanner:
+   successive Decode calls on one Decoder return them one by one, in order, and then io.EOF *)
+Theorem C06_chunking : forall T, env_ok T -> forall ty tag fl, T ty = Some (tag, fl) -> tag_ok tag ->
+  forall ms bs fuel sizes weof scanner,
+    Forall2 (fun vs b => wf T (SStruct ty fl) VNil (VStruct ty vs) /\ enc_top T (VStruct ty vs) = Some b) ms bs ->
+    (length ms < fuel)%nat -> stall_free sizes ->
+    fst (c_dec_stream fuel ty tag fl
+           (new_decoder scanner {| b_data := concat bs; b_sizes := sizes; b_weof := weof; b_term := EOF |}))
+    = (map (fun vs => VStruct ty (normalize_fields T fl vs)) ms, SEOF).
+Proof.
+  intros T HT ty tag fl Hty Htag ms bs fuel sizes weof scanner Hms Hfuel Hsf.
+  set (b := {| b_data := concat bs; b_sizes := sizes; b_weof := weof; b_term := EOF |}).
+  destruct (c_dec_stream fuel ty tag fl (new_decoder scanner b)) as [[vs e] s1] eqn:E.
+  destruct (new_decoder_wf scanner b Hsf) as [Hw Hfl].
+  assert (Hterm: b_term (Readers.bs (rd (new_decoder scanner b))) = EOF) by (destruct scanner; reflexivity).
+  pose proof (stream_on_readers ty tag fl fuel _ _ _ _ Hw Hterm E) as R. rewrite Hfl in R. cbn [b_data b] in R.
+  rewrite (stream_roundtrip T HT ty tag fl Hty Htag ms bs fuel Hms Hfuel) in R. injection R as <- <-.
+  reflexivity.
+Qed.
+Print Assumptions C06_chunking.
+
+(* from an io.ByteScanner (no buffering) a successful Decode leaves exactly the bytes after its own
+   message in the source: 8 bytes plus the declared length were consumed, nothing more *)
+Theorem C06_unbuffered_exact_consumption : forall T, env_ok T ->
+  forall ty tag fl vs b tl sizes weof x s',
+    T ty = Some (tag, fl) -> tag_ok tag -> wf T (SStruct ty fl) VNil (VStruct ty vs) ->
+    enc_top T (VStruct ty vs) = Some b -> stall_free sizes ->
+    c_dec_top ty tag fl (new_decoder true {| b_data := (b ++ tl)%list; b_sizes := sizes; b_weof := weof; b_term := EOF |}) = (x, s') ->
+    x = Ok (VStruct ty (normalize_fields T fl vs), blen b) /\ b_data (Readers.bs (rd s')) = tl /\ clast s' = 0.
+Proof.
+  intros T HT ty tag fl vs b tl sizes weof x s' Hty Htag Hwf Henc Hsf H.
+  set (b0 := {| b_data := (b ++ tl)%list; b_sizes := sizes; b_weof := weof; b_term := EOF |}) in *.
+  destruct (new_decoder_wf true b0 Hsf) as [Hw Hfl].
+  destruct (decode_on_readers _ _ _ _ _ _ Hw H) as [O F _ _]. rewrite Hfl in O, F. cbn [b_data b0] in O, F.
+  rewrite (roundtrip_top T HT ty tag fl vs b tl Hty Htag Hwf Henc) in O, F.
+  specialize (F eq_refl). cbn [strip] in F. split; [exact F|].
+  destruct (O _ F) as (st' & Est & Efl & _ & Sh). injection Est as <-.
+  destruct Sh as (_ & (K & _) & _). cbn [new_decoder rd ls map] in K.
+  destruct (ls (rd s')) eqn:El; [|discriminate].
+  unfold flat, rden in Efl. rewrite El in Efl. cbn [den] in Efl. injection Efl as -> ->. split; reflexivity.
+Qed.
+Print Assumptions C06_unbuffered_exact_consumption.
